@@ -482,22 +482,23 @@ def _check_sccs(g, comps, trivial):
 # ---------------------------------------------------------- child report cut
 
 class _CutStream:
-    """Stream that dies after K bytes (the real report code, cut short)."""
+    """Only the first K bytes of the report reach the parent.
+
+    The real report code runs to its end (so the total length is known);
+    the wrapper then ends the process at once: for the parent this is a child
+    that died after writing K bytes of its report."""
 
     def __init__(self, real, limit):
         self.real = real
         self.limit = limit
-        self.sent = 0
+        self.total = 0
 
     def write(self, s):
-        data = s.encode('utf-8', 'replace')
-        room = self.limit - self.sent
-        if len(data) >= room:
+        data = s.encode('utf-8', 'backslashreplace')
+        room = self.limit - self.total
+        if room > 0:
             os.write(self.real.fileno(), data[:room])
-            emit('report.cut', at=self.limit)
-            os._exit(int(os.environ.get('ZTR_REPORT_CUT_RC', '0')))
-        os.write(self.real.fileno(), data)
-        self.sent += len(data)
+        self.total += len(data)
         return len(s)
 
     def flush(self):
@@ -517,11 +518,26 @@ def _patch_process(mod):
         except Exception:
             pass
         cut = os.environ.get('ZTR_REPORT_CUT')
+        only = os.environ.get('ZTR_REPORT_CUT_LAYER')
+        if only and only != self.runner.options.resume_layer:
+            cut = None
+        stream = None
         if cut is not None:
-            self.original_stderr = _CutStream(self.original_stderr, int(cut))
+            stream = _CutStream(self.original_stderr, int(cut))
+            self.original_stderr = stream
         emit('child.report', ran=self.runner.ran,
-             nfail=len(self.runner.failures), nerr=len(self.runner.errors))
-        return orig(self)
+             layer=self.runner.options.resume_layer,
+             nfail=len(self.runner.failures), nerr=len(self.runner.errors),
+             nskip=len(self.runner.skipped),
+             fails=[str(t)[:300] for t, _ in self.runner.failures][:60],
+             errs=[str(t)[:300] for t, _ in self.runner.errors][:60])
+        try:
+            return orig(self)
+        finally:
+            if stream is not None:
+                emit('report.cut', at=stream.limit, total=stream.total,
+                     layer=self.runner.options.resume_layer)
+                os._exit(int(os.environ.get('ZTR_REPORT_CUT_RC', '0')))
     cls.report = report
 
 
